@@ -130,7 +130,8 @@ InScope(c) ==
 \* v1 / v2: file contents before / after; alice is the identity; a sentinel entry per version (not shown) lets the harness see
 \* that the reload has completed (for an emptied file: that the previous sentinel is gone)
 FileVersions == { {}, {"alice"}, {"alice", "bob"}, {"bob"} }
-\* style: how the operator rewrites the file - a new file renamed into place, or the file truncated and written in place
+\* style: how the operator rewrites the file - a new file renamed into place, the file truncated and written in place, or (mounted
+\* volumes) the configured path is a symlink chain and a version is published by swapping a link and removing the old directory
 FileChangeRec(v1, v2, emptyStyle, style) ==
     [fam |-> "c08file", in |-> [v1 |-> SetAsSeq(v1), v2 |-> SetAsSeq(v2), emptyStyle |-> emptyStyle, style |-> style],
      steps |-> << [a |-> "login", args |-> [when |-> "before"], req |-> IF "alice" \in v1 THEN [session |-> "set"] ELSE [session |-> [not |-> "set"]]],
@@ -173,6 +174,6 @@ CaseRec(d) == [fam |-> "c08",
 EmitVocab == JsonSerialize("vocab.json", Vocab)
 EmitCase  == CSVWrite("%1$s", <<ToJson(CaseRec(c))>>, "cases.ndjson")
 \* the file-change histories are few: emitted once
-EmitFileCases == \A v1 \in FileVersions, v2 \in FileVersions, es \in {"empty", "comment"}, sty \in {"rename", "inplace"} :
+EmitFileCases == \A v1 \in FileVersions, v2 \in FileVersions, es \in {"empty", "comment"}, sty \in {"rename", "inplace", "symlink"} :
                     (v1 # v2 /\ (v2 = {} \/ es = "empty")) => CSVWrite("%1$s", <<ToJson(FileChangeRec(v1, v2, es, sty))>>, "cases_file.ndjson")
 =============================================================================
